@@ -136,3 +136,42 @@ def to_deg(q):
 
 def random_unit(rng, dim):
     return pick(rng, DIMS[dim])
+
+
+# ---------------------------------------------------------------------------------------------------------------
+# approximate conversion from a reference magnitude to a number in a given unit - used ONLY to choose sensible bare
+# numbers for the unit the generator believes is in force (never by an oracle)
+
+def from_ref(unit, x):
+    """x is in the dimension's reference unit: feet, fps, degrees, Celsius, inHg, grains, ft-lb"""
+    d = {"Foot": 1.0, "Yard": 1 / 3.0, "Meter": 0.3048, "Inch": 12.0, "Centimeter": 30.48, "Kilometer": 0.0003048,
+         "Mile": 1 / 5280.0, "Millimeter": 304.8, "NauticalMile": 12 / 72913.3858, "Line": 120.0,
+         "FPS": 1.0, "MPS": 1 / 3.2808399, "KMH": 3.6 / 3.2808399, "MPH": 2.23693629 / 3.2808399,
+         "KT": 1.94384449 / 3.2808399,
+         "Degree": 1.0, "Radian": math.pi / 180, "MOA": 60.0, "Mil": 3200 / 180.0, "MRad": 1000 * math.pi / 180,
+         "Thousandth": 3000 / 180.0, "OClock": 1 / 30.0,
+         "InHg": 1.0, "MmHg": 25.4, "Bar": 25.4 / 750.061683, "hPa": 25.4 / 750.061683 * 1000, "PSI": 25.4 / 51.714924102396,
+         "Grain": 1.0, "Gram": 1 / 15.4323584, "Kilogram": 1 / 15432.3584, "Newton": 1 / 151339.73750336,
+         "Pound": 1 / 7000.0, "Ounce": 1 / 437.5, "FootPound": 1.0, "Joule": 1 / 0.737562149277}
+    if unit in d:
+        return x * d[unit]
+    if unit == "InchesPer100Yd":
+        return math.tan(math.radians(x)) * 3600
+    if unit == "CmPer100m":
+        return math.tan(math.radians(x)) * 10000
+    if unit == "Celsius":
+        return x
+    if unit == "Fahrenheit":
+        return x * 9 / 5 + 32
+    if unit == "Kelvin":
+        return x + 273.15
+    if unit == "Rankin":
+        return (x + 273.15) * 9 / 5
+    raise KeyError(unit)
+
+
+def sig4(x):
+    """round to 5 significant digits (bare numbers should look like numbers a person types)"""
+    if x == 0:
+        return 0.0
+    return float(f"{x:.5g}")
